@@ -363,18 +363,18 @@ static bool run_exec(const std::string& prim, int ex, Script& sc) {
     }
     { vtp::GateGuard gg; for (int i = 0; i < n; i++) vtp::spawn_on(ws[i], g_vc.vc[0]); }
     // wait until every call has returned
-    uint64_t waited = 0;
+    uint64_t wait_start = now_us();
     while (true) {
         bool all = true; for (auto r : g_calls) if (!r->returned) { all = false; break; }
         if (all) break;
-        if (waited > 10 * 1000 * 1000) {
+        if (now_us() - wait_start > 8 * 1000 * 1000) {
             vt::Arr a; std::string wh;
             for (auto r : g_calls) if (!r->returned) { a.i(r->id); wh += std::to_string(r->id) + (r->written ? ":waiting " : r->invoked ? ":issuing " : ":notstarted "); }
             vt::Ev("Hang").raw("blocked", a.str()).s("where", wh).s("what", prim + " " + sc.label);
             vt::flush();
             return false;
         }
-        thread_usleep(500); waited += 500;
+        thread_usleep(500);
     }
     thread_usleep(300);
     g_release = true;
